@@ -114,41 +114,39 @@ Print Assumptions C44_hashed_record_verifies_own_token_only.
 (** ** 4. the middleware: the wrapped handler is reached (status 200) with principal [p] IFF
     the user of [p] exists and is active AND
       - the Authorization header carries (scheme Token/Bearer) a non-JWT token that the store
-        resolves to a record, [p] being that record's user/id, or
+        resolves to a record whose status is ACTIVE, [p] being that record's user/id, or
       - there is no token header, and the cookie's key resolves to a stored unexpired session.
-    NOTE: the token's own status is NOT part of the condition (see the refuted statement). *)
+    (Code as of the /repo fix of the finding inactive-token-passes-authentication-middleware:
+    extractAuthorization answers 401 for a token whose status is inactive; before it the token's
+    status was not part of the condition - this check found that.) *)
 Theorem C44_authenticated_iff :
   forall C st h ck renew p,
     (exists st', authenticate C st h ck renew = (200%N, Some p, st')) <-> auth_spec C st h ck p.
 Proof. exact authenticated_iff. Qed.
 Print Assumptions C44_authenticated_iff.
 
-(** FULL STATEMENT (refuted below):
-      forall st h ck renew p st', authenticate C st h ck renew = (200, Some p, st') ->
-        user of p active /\ ((token exists /\ verifies /\ a_active a = true) \/ unexpired session).
-    The strongest true weakening: everything except "the token is active"; an inactive token's
-    principal carries NO usable permission set (PermissionSet() fails). *)
-Theorem C44_authenticated_only_if_partial :
+(** the property's "only if", at full strength: authenticated => the principal's user is
+    active AND (the token exists, its stored form verifies exactly the presented token, and it
+    is active) OR (a stored session with now < expiry). *)
+Theorem C44_authenticated_only_if :
   forall C, crypto_ok C -> forall st h ck renew p st',
     authenticate C st h ck renew = (200%N, Some p, st') ->
     aget N.eqb (p_user p) (users C (ps C st)) = Some true /\
     ((exists t id a, h = HTok C t false /\ p_kind p = 1%N /\ p_ident p = id /\ p_user p = a_user C a /\
                      aget N.eqb id (recs C (ts C st)) = Some a /\ verifies C (ts C st) a t /\
-                     (a_active C a = false -> p_perm p = None)) \/
+                     a_active C a = true) \/
      (exists k id s e1 e2, ck = Some k /\ p_kind p = 2%N /\ p_ident p = id /\ p_user p = s_user C s /\
                      aget (str_eqb C) k (sidx C (ss C st)) = Some (id, e1) /\ (now C (ss C st) < e1)%Z /\
                      aget N.eqb id (sdat C (ss C st)) = Some (s, e2) /\ (now C (ss C st) < e2)%Z)).
 Proof. exact authenticated_only_if. Qed.
-Print Assumptions C44_authenticated_only_if_partial.
+Print Assumptions C44_authenticated_only_if.
 
-(** the mirror refutes "only with a token that ... is active": create a user and a token,
-    deactivate the token, present it: status 200, principal = the token's user, no permissions.
-    Confirmed on the real AuthenticationHandler (findings.d/C44.json). *)
-Theorem C44_token_must_be_active_refuted :
-  exists ops, trace sym (init sym false true V256) ops = [[0]; [0]; [0]; [200; 1; 0; 0; 0]]%N /\
-              ops = witness_ops.
-Proof. exists witness_ops. split; [exact inactive_token_authenticates | reflexivity]. Qed.
-Print Assumptions C44_token_must_be_active_refuted.
+(** the former counterexample, now positive: a deactivated token of an active user is refused
+    with 401 and works again once reactivated *)
+Example C44_inactive_token_refused :
+  trace sym (init sym false true V256) witness_ops =
+    [[0]; [0]; [200; 1; 0; 0; 4]; [0]; [401]; [0]; [200; 1; 0; 0; 4]]%N.
+Proof. exact inactive_token_refused. Qed.
 
 (** ** 5. revocation, from ANY state (hence after any history) *)
 Theorem C44_deactivated_user_never_authenticates :
